@@ -95,3 +95,18 @@ Example C10_no_dup_full_statement_unfold :
      syntactically_valid doc -> lex doc = Some toks -> formatted_text doc ins ts = Done out -> lex out = Some toks' ->
      (count_occ (list_eq_dec N.eq_dec) (comment_bodies toks') c <= count_occ (list_eq_dec N.eq_dec) (comment_bodies toks) c)%nat).
 Proof. reflexivity. Qed.
+
+(* 5. comments in leading positions are kept: for every program whose comments stand only in front of `type`, `proc`,
+   `var`, a parameter, or the first token of a statement (predicate lead_only; blocks used as branches excluded), every
+   layout, every option setting: the formatted text lexes to the same non-comment tokens and to the SAME comment bodies,
+   in order - none lost, none duplicated (Proofs/FormatStructProg.v, by structural induction over the abstract program) *)
+From Spl Require Proofs.FormatStructProg Spec.Grammar Proofs.PipelineText.
+Theorem C10_lead_comments_kept : forall p doc toks ins ts,
+  Grammar.prog_ok p = true -> FormatStructProg.lead_only p = true -> PipelineText.aprog_valid p = true ->
+  lex doc = Some toks -> map tk toks = Grammar.flatten p ++ [Eof] ->
+  exists txt toks',
+    formatted_text doc ins ts = Done txt /\ lex txt = Some toks' /\
+    code_kinds toks' = code_kinds toks /\ comment_bodies toks' = comment_bodies toks /\
+    Forall (fun t => terr t = []) toks'.
+Proof. exact FormatStructProg.document_lead. Qed.
+Print Assumptions C10_lead_comments_kept.
